@@ -201,15 +201,18 @@ var CfgC15 = reg(&MachineCfg{
 
 var CfgC07 = reg(&MachineCfg{
 	Prop:       "C07",
-	Gens:       []interface{}{"burn", 48, "commit", 30, "bank", 10, "aol", 4, "pnft", 4, "crash", 2, "restart", 2},
+	Gens:       []interface{}{"burn", 44, "gov", 14, "commit", 30, "bank", 8, "aol", 3, "pnft", 3, "crash", 2, "restart", 2},
 	Bias:       map[string]int{"right-signers": 95, "exec": 0, "vesting": 4},
-	Rule:       "block histories in which coins of 1-3 denominations reach the burn address by send, multi-send, several transfers per block, dust/huge amounts and by creating delayed/continuous/periodic/permanently locked vesting accounts at that address, with empty blocks and unrelated traffic; oracle = spendable/supply/balance accounting across EndBlock on the deliver state plus every crisis invariant after Commit; non-trivial = the burn address was spendable at >=2 EndBlocks",
+	Rule:       "block histories in which coins of 1-3 denominations reach the burn address by send, multi-send, several transfers per block, dust/huge amounts, by creating delayed/continuous/periodic/permanently locked vesting accounts at that address and by governance proposals that pay it out of the community pool inside EndBlock, with empty blocks and unrelated traffic; oracle = spendable/supply/balance accounting across EndBlock on the deliver state plus every crisis invariant after Commit; non-trivial = the burn address was spendable at >=2 EndBlocks",
 	NonTrivial: func(w *world.World) bool { return lab(w, "c07 burn address spendable at EndBlock") >= 2 },
 	Step: func(g *G, kind string) *world.Step {
-		if kind != "burn" {
-			return nil
+		switch kind {
+		case "burn":
+			return &world.Step{Kind: "tx", Tx: g.genBurnTx()}
+		case "gov":
+			return &world.Step{Kind: "tx", Tx: g.genGovTx()}
 		}
-		return &world.Step{Kind: "tx", Tx: g.genBurnTx()}
+		return nil
 	},
 })
 
